@@ -1051,6 +1051,14 @@ def sparse_cases(rng, tier, scale):
         yield Case(f"im_bm {p} {lst(seq)}", k=False)
         if rng.randrange(3) == 0:
             yield Case(f"im_bm_big {p} {lst(seq)}", k=False)
+        if L >= 2 and rng.randrange(3) == 0:
+            # a sequence whose last terms vanish: recurrence s_k = -a s_{k-2} from (1, 0), even length
+            a = rng.randrange(1, p)
+            sq = [1, 0]
+            while len(sq) < 2 * L + 2:
+                sq.append((-a * sq[-2]) % p)
+            yield Case(f"im_bm {p} {lst(sq)}", k=False)
+            yield Case(f"im_bm_big {p} {lst(sq)}", k=False)
     # sparse lattice index: square or slightly overdetermined relation matrices
     for _ in range(8 * scale):
         n = rng.choice([8, 9, 12, 16, 24])
@@ -1084,7 +1092,7 @@ def perm_parity(p):
 
 
 def _all_cases(tier, rng, extended):
-    scale = 4 if tier == "quick" else 24
+    scale = 4 if tier == "quick" else 120
     if extended:
         scale *= 3
     yield from crt_cases(rng, 300 * scale)
@@ -1594,8 +1602,19 @@ def finding_key(case, ans, profile):
         if krylov_deficient(dec_sparse(case.args[0])):
             return "sparse-det-false-zero"
     if op in ("im_det_sparse", "im_det_sparse_par", "im_detp4") and ans == "panic":
+        # Berlekamp-Massey on the sequence [a, 0, 0, ...]: (M^k v)[0] = 0 for all k >= 1 (e.g. empty first row), or zero matrix
         rows = dec_sparse(case.args[0])
-        if not rows or not rows[0] or not any(rows):
+        if not rows or not any(rows):
+            return "sparse-det-degenerate-sequence-panic"
+        x, y, v = 0, 1, []
+        for _ in range(len(rows)):
+            x, y = y, (x + y) % 65537
+            v.append(y)
+        tail = []
+        for _ in range(2 * len(rows) - 1):
+            v = [sum(e * v[j] for j, e in r) for r in rows]
+            tail.append(v[0])
+        if not any(tail):
             return "sparse-det-degenerate-sequence-panic"
     if op == "im_ker_p256" and ans == "panic":
         # Berlekamp-Massey on the sequence [a, 0, 0, ...] (e.g. the fixed start vector is itself a kernel vector)
